@@ -68,7 +68,17 @@ class DoctestConfig(dict):
                         'Failed to parse directive given in the xdoctest "options"'
                         'directive_optstr={!r}'.format(directive_optstr)
                     )
-                default_runtime_state[directive.name] = directive.positive
+                if directive.name == 'REQUIRES':
+                    # The state of REQUIRES is the set of unmet conditions,
+                    # not a flag.
+                    unmet = default_runtime_state.setdefault('REQUIRES', set())
+                    for effect in directive.effects():
+                        if effect.action == 'set.add':
+                            unmet.add(effect.value)
+                        elif effect.action == 'set.remove':
+                            unmet.discard(effect.value)
+                else:
+                    default_runtime_state[directive.name] = directive.positive
         _examp_conf = {
             'default_runtime_state': default_runtime_state,
             'offset_linenos': ns['offset_linenos'],
